@@ -6,6 +6,7 @@ import (
 	"io"
 	"os"
 	"path/filepath"
+	"sort"
 
 	"github.com/arm-doe/sts"
 	"github.com/arm-doe/sts/fileutil"
@@ -159,22 +160,29 @@ func maxInt64(a, b int64) int64 {
 }
 
 func companionPartExists(cmp *sts.Partial, beg, end int64) bool {
-	overlap := int64(0)
-	var n int64
-	var minEnd int64
-	var maxBeg int64
-	for _, p := range cmp.Parts {
-		maxBeg = maxInt64(beg, p.Beg)
-		minEnd = minInt64(end, p.End)
-		n = minEnd - maxBeg
-		if n > 0 {
-			overlap += n
-			if overlap == end-beg {
-				return true
-			}
+	// Walk the recorded ranges in order of their start and see how far they
+	// reach from "beg" without a gap.  (Adding up the overlaps with each
+	// recorded range is not enough: recorded ranges may overlap one another
+	// and the shared bytes would be counted twice.)
+	parts := make([]*sts.ByteRange, len(cmp.Parts))
+	copy(parts, cmp.Parts)
+	sort.Slice(parts, func(i, j int) bool {
+		return parts[i].Beg < parts[j].Beg
+	})
+	pos := beg
+	for _, p := range parts {
+		if p.End <= pos {
+			continue
+		}
+		if p.Beg > pos {
+			return false
+		}
+		pos = p.End
+		if pos >= end {
+			return true
 		}
 	}
-	return overlap == end-beg
+	return pos >= end
 }
 
 func isCompanionComplete(cmp *sts.Partial) bool {
